@@ -3,6 +3,7 @@
    Input lines :  <id> <span> <items|-> <dense hex|-> <readable hex|-> <ref hex|->
                   op <id> <polish tree> <dense hex> <readable hex>          (operator trees)
                   st <id> <0|1> <A hex> <B hex> <AB dense hex> <AB readable hex>   (statement boundaries)
+                  str <id> <value hex> <dense hex> <readable hex>            (one string literal)
    Output lines:  bad <id> <diag>     for every case where check_case is false;   done <count> *)
 open C02_model
 
@@ -90,6 +91,10 @@ let () =
          in
          incr count;
          if not (c02_check c) then Printf.printf "bad %s %s\n" id (string_of_bytes (c02_diag c))
+       | [ "str"; id; value; dense; readable ] ->
+         let c = { v_value = bytes_of_hex value; v_dense = bytes_of_hex dense; v_readable = bytes_of_hex readable } in
+         incr count;
+         if not (vcheck_case c) then Printf.printf "bad %s %s\n" id (string_of_bytes (vdiag_bytes c))
        | [ "st"; id; exprend; a; b; dense; readable ] ->
          let c = { s_exprend = (exprend = "1"); s_a = bytes_of_hex a; s_b = bytes_of_hex b;
                    s_dense = bytes_of_hex dense; s_readable = bytes_of_hex readable } in
